@@ -268,6 +268,8 @@ func (c *Ctx) c10Scripts() error {
 		native := map[int]int{}
 		var sb strings.Builder
 		var want []string
+		// a key that comes out of a call with a visible effect: evaluated once per use, also in a compound update
+		fmt.Fprintf(&sb, "var pool = []%s{%s}\nfunc pk(i int) %s {\n\tprintln(\"pk\", i)\n\treturn pool[i]\n}\n", kk.goT, strings.Join(kk.lit[:npool], ", "), kk.goT)
 		fmt.Fprintf(&sb, "func run() {\n")
 		// literal or make or nil map
 		switch r.Intn(3) {
@@ -306,9 +308,14 @@ func (c *Ctx) c10Scripts() error {
 				v := r.Intn(100)
 				fmt.Fprintf(&sb, "m[%s] = %d\n", kk.lit[k], v)
 				native[k] = v
-			case op < 40:
+			case op < 34:
 				fmt.Fprintf(&sb, "m[%s] += 3\nm[%s]++\n", kk.lit[k], kk.lit[k])
 				native[k] += 4
+			case op < 40:
+				fmt.Fprintf(&sb, "m[pk(%d)] += 5\nm[pk(%d)]--\nm[pk(%d)] = m[pk(%d)] * 2\n", k, k, k, k)
+				native[k] = (native[k] + 4) * 2
+				want = append(want, fmt.Sprintf("pk %d", k), fmt.Sprintf("pk %d", k), fmt.Sprintf("pk %d", k), fmt.Sprintf("pk %d", k))
+				c.Rep.Count("script-key-from-call")
 			case op < 60:
 				fmt.Fprintf(&sb, "delete(m, %s)\n", kk.lit[k])
 				delete(native, k)
